@@ -121,7 +121,8 @@ class Mem:
         for off in sorted(self.cells):
             size, v = self.cells[off]
             args.append(T.const_int(64, off)); args.append(v)
-        under = self.arr if self.arr is not None else T.mk('mem0', (self.base, self.kind), (), 'mem')
+        # uninitialised local storage is canonical (its name is an artefact of instruction numbering)
+        under = self.arr if self.arr is not None else T.mk('mem0', ('local' if self.kind in ('alloca', 'exn') else self.base, self.kind), (), 'mem')
         if not args:
             return under
         return T.mk('mem', None, tuple([under] + args), 'mem')
@@ -339,7 +340,7 @@ class Interp:
             if base.startswith('g:'):
                 g = self.globals.get(base[2:])
                 kind = 'gconst' if (g and g.get('const') and 'init' in g) else 'global'
-            elif base.startswith('a') or base.startswith('sym'):
+            elif re.match(r'a\d+$', base) or base.startswith('sym'):
                 kind = 'param'
             elif base.startswith('exn'):
                 kind = 'exn'
@@ -356,7 +357,7 @@ class Interp:
     def load_from(self, state, base, off, size, ty):
         m = state.get(base)
         if m is None:
-            m = Mem(base, 'param' if base.startswith('a') else 'global' if base.startswith('g:') else 'alloca')
+            m = Mem(base, 'param' if (re.match(r'a\d+$', base) or base.startswith('sym')) else 'global' if base.startswith('g:') else 'alloca')
             if base.startswith('g:'):
                 g = self.globals.get(base[2:])
                 if g and g.get('const') and 'init' in g: m.kind = 'gconst'
